@@ -73,6 +73,11 @@ def run(eng, rep) -> None:
                 want = "SELF.fcp.%s(%s)" % (look, arg)
                 other = "SELF.fcp.%s(%s)" % ("get_enum" if kind == "StructType" else "get_struct", arg)
                 okc = want in pos_some
+                # kind decided by membership in an index the transformer itself maintains (x in self._names)
+                own_index = [a for s_, a in lits if a[0] in ("in", "notin") and len(a) > 2 and str(a[2]).startswith("SELF.") and not str(a[2]).startswith("SELF.fcp.") and str(a[1]) == arg and ((a[0] == "in") == bool(s_))]
+                if not okc and own_index:
+                    rep.undecided("R08.1", f.file, f.qual, "return %s" % vs[:70], "the tag is returned under membership of the name in %s, an index kept by the transformer; that it mirrors the declaration lists is not decided" % own_index[0][2])
+                    continue
                 rep.check(okc and arg == name_expr, "R08.1", f.file, f.qual, "return %s" % vs[:70], "under a positive %s of the same name" % look,
                           "%s(%s) is returned without a positive %s lookup of that name on the path (path: %s): a reference can be accepted unresolved or mis-kinded" % (kind, arg, look, path.describe()[:150]))
                 # struct wins over enum only if struct lookup is positive; an enum tag must not be returned when the struct lookup is positive
@@ -102,7 +107,31 @@ def run(eng, rep) -> None:
         except Undecided as u:
             rep.undecided("R08.1", m.file, m.qual, "lookup", str(u))
             continue
+        # idiom: maybe(next((x for x in self.<list> if x.name == name), None))
+        single = [v for p, v in rr]
+        if len(single) == 1 and isinstance(single[0], ast.Call) and dotted(single[0].func) == "maybe" and len(single[0].args) == 1:
+            nx = single[0].args[0]
+            verdict = None
+            if isinstance(nx, ast.Call) and dotted(nx.func) == "next" and len(nx.args) == 2 and isinstance(nx.args[1], ast.Constant) and nx.args[1].value is None and isinstance(nx.args[0], ast.GeneratorExp) and len(nx.args[0].generators) == 1:
+                ge = nx.args[0]
+                g0 = ge.generators[0]
+                var = g0.target.id if isinstance(g0.target, ast.Name) else None
+                pname = m.params[1].arg
+                over = norm(g0.iter) in ("%s.%s" % (m.params[0].arg, lst), "SELF.%s" % lst)
+                same_elt = isinstance(ge.elt, ast.Name) and ge.elt.id == var
+                test_ok = len(g0.ifs) == 1 and norm(g0.ifs[0]) in ("%s.name == %s" % (var, pname), "%s == %s.name" % (pname, var), "%s.name == NAME" % var, "NAME == %s.name" % var)
+                verdict = bool(var) and over and same_elt and test_ok
+            if verdict is True:
+                rep.ok("R08.1", m.file, m.qual, "maybe(next((x for x in self.%s if x.name == name), None))" % lst, "exact-name lookup over self.%s (first match or Nothing)" % lst)
+            elif verdict is False:
+                rep.violation("R08.1", m.file, m.qual, "lookup over self.%s" % lst, "lookup is not an exact-name search over self.%s returning Some(match)/Nothing()" % lst)
+            else:
+                rep.undecided("R08.1", m.file, m.qual, "lookup", "form of the lookup not recognised: %s" % norm(single[0], 80))
+            continue
         somes = [(p, v) for p, v in rr if isinstance(v, ast.Call) and dotted(v.func) == "Some"]
+        if not somes:
+            rep.undecided("R08.1", m.file, m.qual, "lookup", "no `return Some(...)` path: form of the lookup not recognised")
+            continue
         okl = len(somes) == 1 and somes[0][0].binds == [("$1", "SELF.%s" % lst)] and [(s, a) for s, a in somes[0][0].lits] in ([(True, ("eq", "$1.name", "NAME"))], [(True, ("eq", "NAME", "$1.name"))]) and canon(somes[0][1].args[0]) == "$1"
         nothing = [v for p, v in rr if isinstance(v, ast.Call) and dotted(v.func) == "Nothing"]
         rep.check(okl and bool(nothing), "R08.1", m.file, m.qual, "for x in self.%s: if x.name == name: return Some(x); return Nothing()" % lst, "exact-name lookup over self.%s" % lst,
